@@ -114,6 +114,9 @@ def run_patch_list(ctx, rng, patches, files, dirs, classes, via="zp.apply", labe
     elif via == "boot.apply":
         r = ctx.call("boot.open", root)
         handle = r.value["handle"] if r.ok else None
+    if rng.random() < 0.2:
+        failed_apply_first(ctx, rng)
+        ctx.stats.classes["history:after-a-failed-apply"] += 1
     for ops, pf, wire in zip(patches, pfiles, wires):
         model.platform = 0
         model.apply(ops)
@@ -144,6 +147,33 @@ def run_patch_list(ctx, rng, patches, files, dirs, classes, via="zp.apply", labe
                           dict(diffs=[list(d) for d in diffs[:6]], ops=[[describe(o) for o in ops] for ops in patches], label=label, opset=opset), files=pfiles)
     if handle is not None:
         ctx.call("drop", handle)
+    shutil.rmtree(root, ignore_errors=True)
+
+
+def failed_apply_first(ctx, rng):
+    """an apply that fails (a patch for another platform cut short inside a later chunk, or with a damaged block) on some other
+    directory, in the same process right before the apply under test: nothing of it may carry over (platform, buffers, streams)"""
+    plat = rng.choice([1, 2, 3, 4])
+    ops = [dict(op="FHDR", version=3), dict(op="T", platform=plat, region=rng.choice([-1, 1])),
+           dict(op="A", main=0xA, sub=0, fid=0, off=0, data=rng.randbytes(256), dele=1),
+           dict(op="FA", path="game/poison.bin", offset=0, chunks=[(rng.randbytes(3000), True), (rng.randbytes(500), False)]),
+           dict(op="E", main=0xA, sub=0, fid=0, off=4, n=2), dict(op="EOF")]
+    wire = zp.serialise(ops)
+    k = rng.random()
+    if k < 0.6:
+        wire = wire[:rng.randrange(len(wire) // 3, len(wire) - 30)]      # cut short after the target-info chunk
+    else:
+        b = bytearray(wire)
+        i = wire.find(b"game/poison.bin")
+        for j in range(i + 40, min(len(b), i + 40 + 64)):
+            b[j] ^= 0x5A                                                   # damaged block header / deflate stream
+        wire = bytes(b)
+    pf = ctx.write("poison.patch", wire)
+    root = ctx.path("poison-target")
+    shutil.rmtree(root, ignore_errors=True)
+    os.makedirs(os.path.join(root, "sqpack", "ffxiv"))
+    rec = ctx.call("zp.apply", root, pf, input_bytes=len(wire))
+    ctx.stats.monitor["poison_apply:" + rec.outcome.split(":")[0]] += 1
     shutil.rmtree(root, ignore_errors=True)
 
 
@@ -400,6 +430,9 @@ def shard(ctx):
         if not dir_safe(ops, dirs):
             ops = [o for o in ops if o["op"] != "D"]
         via = rng.choice(["zp.apply", "zp.apply", "gd.apply_patch", "boot.apply"])
+        if plat == 0 and rng.random() < 0.3 and sum(1 for o in ops if o["op"] == "T") == 1:
+            ops = [o for o in ops if o["op"] != "T"]        # no target-info chunk at all: the platform is win32 from the start
+            ctx.stats.classes["no-target-info-chunk"] += 1
         run_patch_list(ctx, rng, [ops], files, dirs, ["random", "platform:%s" % zp.PLATFORM_NAMES[plat]] + sorted({"op:" + o["op"] for o in ops}), via=via, label="random",
                        use_strace=(i < P["strace"]))
     # chains
